@@ -490,7 +490,9 @@ class MethodTranslator:
                 raise self.err('attribute self.%s is never stored by the class' % a, n)
             k = self.cm.fields[a]
             if k is None:
-                raise self.err('attribute self.%s is read before the kind of what it holds is known' % a, n)
+                # only None was stored so far (a cache that is filled later): taken to be a tensor; the store that fills it has to agree
+                k = 'B' if a in self.cm.obj_attrs else 'T'
+                self.cm.fields[a] = k
             x = self.fresh('v')
             self.emit('let %s ← self_.%s' % (x, a))
             return V(x, k)
@@ -1028,8 +1030,6 @@ class MethodTranslator:
         for r in reg.results:
             if r not in defined:
                 raise self.err('the numerics block `%s …` does not define %s' % (reg.start, r))
-            if r in self.objn:
-                raise self.err('the numerics block `%s …` defines %s, which is used as an object afterwards' % (reg.start, r))
         if reg.op not in self.cm.ops:
             raise self.err('numeric %s is not declared' % reg.op)
         ts = []
